@@ -1,6 +1,7 @@
 (* Property C13 — statements only.  Every theorem is closed by [exact] of a lemma from
    Proofs/Spec_proofs.v; the statements are pinned again in /verif/pins/C13.v. *)
 From SV Require Import Base.Prelude Model.Spec Proofs.Spec_proofs.
+From SV Require Model.Retry Model.Fiber Model.E2EAttempts Model.E2ESpec Proofs.E2EAttempts_proofs Proofs.E2ESpec_proofs.
 Open Scope nat_scope.
 
 (* can_be_ignored is exactly the "ignorable" class of the specification, for every variant *)
@@ -225,6 +226,135 @@ Example C13_ex_probe :
     (mkBObs [EvBegin 1%N 0%N; EvBegin 2%N 2%N; EvEnd 2%N 3%N; EvEnd 1%N 5%N] (Err ConnectionPoolError) 5%N) = true.
 Proof. repeat split; vm_compute; reflexivity. Qed.
 
+(* ---- end to end: a real Session against a mock cluster (Model/E2EAttempts.v, Model/E2ESpec.v) -----
+   [frs]: the request frames of ONE logical request (one page) as the mock received them, in arrival
+   order, with node, consistency, arrival instant, answer and the instant the answer was logged;
+   [o]: what the caller got; [t0] / [tret]: the call started no earlier / returned no later;
+   [cs], [assign]: the fibers (certificates checked against the execution-loop model of C06);
+   [ls]: a schedule of `execute` proposed by the driver.  Names of the e2e development are written
+   qualified (E2EAttempts.in_flight is the set of FRAMES in flight at an instant). *)
+
+(* the gate of the end-to-end checker is the gate of the model *)
+Theorem C13_e2e_gate_model : forall idem spec,
+  E2EAttempts.gate_open idem spec = gate (mkConfig idem (Some spec)).
+Proof. exact E2ESpec_proofs.gate_open_is_gate. Qed.
+
+(* Gate closed -- in particular EVERY request that is not idempotent, whatever the profile says:
+   the observation is accepted only as one fiber run to its end (Props/C06.v: C06_e2e_run and its
+   consequences apply), and at no instant are two of its frames in flight. *)
+Theorem C13_e2e_gate : forall p idem spec cl0 nodes down cs assign frs ls t0 tret margin o co,
+  E2ESpec.e2e_check13 p idem spec cl0 nodes down cs assign frs ls t0 tret margin o co = true ->
+  (idem = false \/ spec = None) ->
+  exists c, cs = [c] /\ E2EAttempts.check_single p idem cl0 nodes down c frs tret o co = true
+            /\ forall t, List.length (E2EAttempts.in_flight t frs) <= 1.
+Proof. exact E2ESpec_proofs.e2e13_gate. Qed.
+
+Theorem C13_e2e_open : forall p idem spec cl0 nodes down cs assign frs ls t0 tret margin o co max,
+  E2ESpec.e2e_check13 p idem spec cl0 nodes down cs assign frs ls t0 tret margin o co = true ->
+  E2EAttempts.gate_open idem (option_map fst spec) = Some max ->
+  exists interval, spec = Some (max, interval) /\
+    E2ESpec.check_spec p idem cl0 nodes down max interval cs assign frs ls t0 tret margin o co = true.
+Proof. exact E2ESpec_proofs.e2e_check13_open. Qed.
+
+(* Gate open.  Acceptance exhibits a schedule [ls] of `execute` (the interleaving semantics above)
+   that returns what the caller got; hence (C13_result) the caller got what the property text
+   prescribes for the completion order of that schedule -- the first Success / Definitive answer;
+   else, once every started execution completed and none may be started, the last Ignorable -- and
+   (C13_bound) between |fibers seen by the mock| and 1 + max executions were started (more than the
+   mock saw only if every node that is not cut was handed out).  At every instant at most 1 + max
+   frames are in flight, on pairwise different nodes; fiber k's first frame arrives no earlier than
+   k retry intervals after the call started; the fibers are runs of the execution-loop model. *)
+Theorem C13_e2e_schedule : forall p idem cl0 nodes down max interval cs assign frs ls t0 tret margin o co,
+  E2ESpec.check_spec p idem cl0 nodes down max interval cs assign frs ls t0 tret margin o co = true ->
+  let e := E2ESpec.mk_env p idem cl0 nodes down interval cs assign frs t0 tret margin co in
+  E2EAttempts.multi_ok p idem cl0 nodes down max cs assign frs = true
+  /\ (forall t, List.length (E2EAttempts.in_flight t frs) <= 1 + max
+                /\ NoDup (map E2EAttempts.f_node (E2EAttempts.in_flight t frs)))
+  /\ E2ESpec.starts_ok e = true
+  /\ exists s R,
+       run (init max) ls = Some s
+       /\ returned s = Some R
+       /\ spec_returned max (started s) (completions ls) = Some R
+       /\ E2ESpec.rres_match e R o = true
+       /\ List.length cs <= started s <= 1 + max
+       /\ (started s <= List.length cs \/ E2ESpec.e_exhausted e = true)
+       /\ E2ESpec.leftovers_ok e s ls = true
+       /\ E2ESpec.walk e (init max) ls [] = true.
+Proof. exact E2ESpec_proofs.check_spec_sound. Qed.
+
+(* The schedule is truthful.  Every completion in it is backed by the observation ([complete_ok]:
+   the fiber ran to its end, its model result is the label's outcome, its last answer was logged
+   before the call returned; a fiber the mock never saw completes only with None and only if the
+   plan was used up), and a completion is never placed after one whose answer was logged more than
+   [margin] later: lo(f) <= hi(g) + margin for f before g. *)
+Theorem C13_e2e_completions : forall e ls s seen, E2ESpec.walk e s ls seen = true ->
+  forall pre g out post, ls = pre ++ Complete g out :: post ->
+  E2ESpec.complete_ok e g out = true /\
+  exists lo hi, E2ESpec.comp_window e g = Some (lo, hi)
+    /\ (forall x, In x seen -> (x <= hi + E2ESpec.e_margin e)%N)
+    /\ (forall f out2, In (Complete f out2) pre ->
+          exists lo2 hi2, E2ESpec.comp_window e f = Some (lo2, hi2) /\ (lo2 <= hi + E2ESpec.e_margin e)%N).
+Proof. exact E2ESpec_proofs.walk_completions. Qed.
+
+(* a completion placed before the timer tick that started fiber k was logged before fiber k's first
+   frame arrived *)
+Theorem C13_e2e_timer : forall e ls s seen, E2ESpec.walk e s ls seen = true ->
+  forall pre post s1 s2, ls = pre ++ Timer :: post ->
+  run s pre = Some s1 -> step s1 Timer = Some s2 -> started s1 < started s2 ->
+  forall f out, In (Complete f out) pre ->
+  exists lo hi, E2ESpec.comp_window e f = Some (lo, hi) /\ (lo <= E2ESpec.start_hi e (started s1))%N.
+Proof. exact E2ESpec_proofs.walk_timer. Qed.
+
+(* the sweep over arrival instants bounds the frames in flight at EVERY instant *)
+Theorem C13_e2e_in_flight : forall bound frs, E2EAttempts.overlap_ok bound frs = true ->
+  forall t, List.length (E2EAttempts.in_flight t frs) <= bound
+            /\ NoDup (map E2EAttempts.f_node (E2EAttempts.in_flight t frs)).
+Proof. exact E2EAttempts_proofs.overlap_ok_sound. Qed.
+
+(* the predicate the driver evaluates on observations for which no certificate is accepted holds of
+   every accepted one *)
+Theorem C13_e2e_prop_overlap : forall p idem spec cl0 nodes down cs assign frs ls t0 tret margin o co,
+  E2ESpec.e2e_check13 p idem spec cl0 nodes down cs assign frs ls t0 tret margin o co = true ->
+  E2ESpec.prop_overlap idem (option_map fst spec) frs = true.
+Proof. exact E2ESpec_proofs.e2e_check13_prop_overlap. Qed.
+
+(* non-vacuity (instants in microseconds, interval 30 ms, margin 150 ms) *)
+Definition ex_fr (node arr : N) (a : E2EAttempts.answer) (d : N) :=
+  E2EAttempts.mkFrame node Retry.CQuorum arr a d.
+Definition ex_c (node : N) (free : bool) := E2EAttempts.mkCert [node] [Fiber.OSuccess] free.
+Example C13_ex_e2e :
+  (* idempotent, max 2: the first node is slow, the speculative fiber on node 0 answers at 30.2 ms *)
+  E2ESpec.e2e_check13 Retry.PDefault true (Some (2, 30000%N)) Retry.CQuorum [0; 1; 2]%N []
+    [ex_c 2 true; ex_c 0 false] [0; 1]
+    [ex_fr 2 100 E2EAttempts.AnsNone 0; ex_fr 0 30100 E2EAttempts.AnsOk 30200]
+    [Timer; Complete 1 (Some (Ok 1%N))] 0 30300 150000 E2EAttempts.OCompleted (Some 0%N) = true /\
+  (* the speculative fiber must not start before one retry interval has passed *)
+  E2ESpec.e2e_check13 Retry.PDefault true (Some (2, 30000%N)) Retry.CQuorum [0; 1; 2]%N []
+    [ex_c 2 true; ex_c 0 false] [0; 1]
+    [ex_fr 2 100 E2EAttempts.AnsNone 0; ex_fr 0 20100 E2EAttempts.AnsOk 20200]
+    [Timer; Complete 1 (Some (Ok 1%N))] 0 30300 150000 E2EAttempts.OCompleted (Some 0%N) = false /\
+  (* both answer; the caller gets the slow answer of fiber 0 at 400 ms although fiber 1 answered at
+     30.2 ms: no schedule is accepted (fiber 1 cannot be left out, and after its completion the
+     call has returned) *)
+  E2ESpec.e2e_check13 Retry.PDefault true (Some (2, 30000%N)) Retry.CQuorum [0; 1; 2]%N []
+    [ex_c 2 false; ex_c 0 false] [0; 1]
+    [ex_fr 2 100 E2EAttempts.AnsOk 400000; ex_fr 0 30100 E2EAttempts.AnsOk 30200]
+    [Timer; Complete 0 (Some (Ok 0%N))] 0 400100 150000 E2EAttempts.OCompleted (Some 2%N) = false /\
+  (* ... and the schedule in which fiber 1 wins does not return the answer of node 2 *)
+  E2ESpec.e2e_check13 Retry.PDefault true (Some (2, 30000%N)) Retry.CQuorum [0; 1; 2]%N []
+    [ex_c 2 false; ex_c 0 false] [0; 1]
+    [ex_fr 2 100 E2EAttempts.AnsOk 400000; ex_fr 0 30100 E2EAttempts.AnsOk 30200]
+    [Timer; Complete 1 (Some (Ok 1%N))] 0 400100 150000 E2EAttempts.OCompleted (Some 2%N) = false /\
+  run (init 2) [Timer; Complete 1 (Some (Ok 1%N)); Complete 0 (Some (Ok 0%N))] = None /\
+  (* NOT idempotent with the same policy: the same two overlapping frames are rejected whatever the
+     certificate, because the property predicate itself is false; one fiber, one frame is fine *)
+  E2ESpec.prop_overlap false (Some 2)
+    [ex_fr 2 100 E2EAttempts.AnsOk 300000; ex_fr 0 30100 E2EAttempts.AnsOk 30200] = false /\
+  E2ESpec.e2e_check13 Retry.PDefault false (Some (2, 30000%N)) Retry.CQuorum [0; 1; 2]%N []
+    [E2EAttempts.mkCert [2; 0; 1]%N [Fiber.OSuccess] false] [0]
+    [ex_fr 2 100 E2EAttempts.AnsOk 300000] [] 0 300100 150000 E2EAttempts.OCompleted (Some 2%N) = true.
+Proof. vm_compute. repeat split; reflexivity. Qed.
+
 Print Assumptions C13_ignorable_table.
 Print Assumptions C13_bound.
 Print Assumptions C13_result.
@@ -247,3 +377,11 @@ Print Assumptions C13_probe_guided.
 Print Assumptions C13_probe_accept_sound.
 Print Assumptions C13_probe_accept_schedule.
 Print Assumptions C13_probe_accept_complete.
+Print Assumptions C13_e2e_gate_model.
+Print Assumptions C13_e2e_gate.
+Print Assumptions C13_e2e_open.
+Print Assumptions C13_e2e_schedule.
+Print Assumptions C13_e2e_completions.
+Print Assumptions C13_e2e_timer.
+Print Assumptions C13_e2e_in_flight.
+Print Assumptions C13_e2e_prop_overlap.
